@@ -2,7 +2,8 @@
  * this pre-pass retagging every definition block, whatever its content looks like:
  *   ensures  block->type == BLOCK_EMPTY for every definition kind, whether or not the definition could be extracted
  * (a malformed link definition such as "[ref[]: http://..." fails extraction; left as BLOCK_DEF_LINK it would reach the writers'
- * default arm: "Unknown token type", and html.c ends the process).  The extraction helpers (footnote_new, definition_extract,
+ * default arm: "Unknown token type", and html.c ends the process).
+ *   ensures  (C01) the footnote pushed on the engine's stack can be released by the real footnote_free: no block is freed twice  The extraction helpers (footnote_new, definition_extract,
  * clean_string_from_range, strip_leading_whitespace) are contract stubs answering anything. */
 #include "verif.h"
 #include <stdio.h>
@@ -13,7 +14,7 @@
 void process_definition_block(mmd_engine * e, token * block);
 footnote * footnote_new(const char * source, token * label, token * content, bool lowercase) {
 	bool none; if (none) { return NULL; }
-	footnote * f = malloc(sizeof(footnote)); bool has; f->clean_text = NULL; f->label_text = NULL; f->content = NULL;
+	footnote * f = malloc(sizeof(footnote)); bool has; f->free_para = false; f->count = -1; f->clean_text = NULL; f->label_text = NULL; f->content = NULL;
 	if (has) { f->clean_text = malloc(3); char a; f->clean_text[0] = a; f->clean_text[1] = 'x'; f->clean_text[2] = 0; }
 	f->label_text = malloc(2); f->label_text[0] = 0;
 	return f;
@@ -21,7 +22,9 @@ footnote * footnote_new(const char * source, token * label, token * content, boo
 bool definition_extract(mmd_engine * e, token ** remainder) { bool r; return r; }
 char * clean_string_from_range(const char * source, size_t start, size_t len, bool lowercase) { return NULL; }
 void strip_leading_whitespace(token * chain, const char * source) { }
-void stack_push(stack * s, void * element) { }
+static footnote * g_pushed; static int g_npush;
+void stack_push(stack * s, void * element) { g_pushed = element; g_npush++; }
+void footnote_free(footnote * f);
 int fprintf(FILE * stream, const char * format, ...) { return 0; }
 static token * mk(unsigned short type) {
 	token * t = ALLOC(sizeof(token));
@@ -40,5 +43,14 @@ void h_defblock(void) {
 	if (in_para) { token * p = mk(BLOCK_PARA); p->child = label; block->child = p; } else { block->child = label; }
 	process_definition_block(e, block);
 	ASSERT(block->type == BLOCK_EMPTY, "C02: a definition block is retagged BLOCK_EMPTY by the pre-pass, extracted or not (the writers have no arm for BLOCK_DEF_*)");
+	/* (C01) ownership of what was pushed on the engine's stack: the engine releases every stacked footnote with footnote_free (the
+	 * real function, run here), which frees clean_text and label_text separately -- they must be distinct blocks, each freed once */
+	if (bt != BLOCK_DEF_LINK) {
+		ASSERT(g_npush == 1, "C02: the definition is pushed on its stack exactly once");
+		if (g_pushed) {
+			ASSERT(g_pushed->clean_text == NULL || g_pushed->clean_text != g_pushed->label_text, "C01: clean_text and label_text of a stacked definition are distinct heap blocks (footnote_free frees both)");
+			footnote_free(g_pushed);
+		}
+	}
 	REACH();
 }
